@@ -252,6 +252,9 @@ def jobs(tier):
         add("complex-2x1-N3-bs2-k3", kind="complex", n=2, h=1, a=None, data=d3, bases=b3, bs=2, nbs=None, k=3)
         add("mixed-111-N3-bs2-k2", kind="mixed", n=1, h=1, a=1, data=[[0], [1], [1]], bases=["Z", "Y", "X"], bs=2, nbs=None, k=2)
         add("mixed-211-N3-bs2-neg1-k1", kind="mixed", n=2, h=1, a=1, data=d3, bases=b3, bs=2, nbs=1, k=1)
+        add("positive-4x3-N4-bs3-k1", kind="positive", n=4, h=3, a=None, data=[[0, 1, 1, 0], [1, 1, 0, 1], [1, 0, 0, 0], [0, 0, 1, 1]], bases=None, bs=3, nbs=None, k=1)
+        add("complex-3x2-N4-bs2-neg3-k1", kind="complex", n=3, h=2, a=None, data=[[0, 1, 1], [1, 1, 0], [1, 0, 0], [0, 0, 1]], bases=["ZZZ", "XYZ", "ZZZ", "YZX"], bs=2, nbs=3, k=1)
+        add("mixed-121-N3-bs1-k1", kind="mixed", n=1, h=2, a=1, data=[[0], [1], [1]], bases=["Z", "Y", "X"], bs=1, nbs=None, k=1)
     return J
 
 
